@@ -117,7 +117,7 @@ def stem_family_cases(scratch, maxk, lens, mincross, stars, tag="s"):
         for line in f:
             d = json.loads(line)
             cases.append({"kind": "bp", "n": d["n"], "pairs": sorted([list(p) for p in d["pairs"]]),
-                          "fam": d["fam"], "arr": d["arr"], "lens": d["lens"], "opt_limit": 20})
+                          "fam": d["fam"], "arr": d["arr"], "lens": d["lens"], "opt_limit": 40})
     os.remove(out)
     if f'<<"GENERATED", {len(cases)}>>' not in r["out"]:
         raise lib.MachineryError("Gen_StemFamily: number of exported structures differs from the spec's count")
